@@ -813,3 +813,14 @@ package main
 //@   requires [C14] t != nil && msg != nil && msg.sess != nil
 //@   modifies *
 //@   ensures [C14] join_mark_cleared: msg.sess.inflightReqs != nil ==> doneCalls > old(doneCalls)
+
+// C06: a group topic is born with exactly one subscriber, its creator, who owns it in both modes; the default access
+// carries no O; the store is told the same.
+//@ func initTopicNewGrp(t *Topic, sreg *ClientComMessage, isChan bool) (err error)
+//@   requires [C06] t != nil && sreg != nil && sreg.Sub != nil && t.perUser != nil && (forall u types.Uid :: !(u in t.perUser))
+//@   modifies inferred
+//@   ensures [C06] born_with_one_owner: err == nil ==> t.cat == types.TopicCatGrp && t.owner == types.ParseUserId(old(sreg.AsUser)) && (t.owner in t.perUser) && hasO(t.perUser[t.owner].modeWant) && hasO(t.perUser[t.owner].modeGiven) && hasJ(t.perUser[t.owner].modeWant) && hasJ(t.perUser[t.owner].modeGiven)
+//@   ensures [C06] nobody_else: err == nil ==> forall u types.Uid :: (u in t.perUser) ==> u == t.owner
+//@   ensures [C06] defaults_without_owner: err == nil ==> !hasO(t.accessAuth) && !hasO(t.accessAnon)
+//@   assert at call store.TopicsPersistenceInterface.Create [C06] stored_owner: $2 == t.owner && (t.owner in t.perUser) && hasO(t.perUser[t.owner].modeWant & t.perUser[t.owner].modeGiven)
+//@   assert at call store.TopicsPersistenceInterface.Create [C16] avatar_after_create: true
